@@ -30,7 +30,7 @@ def main():
         })
     m = {
         "version": 1,
-        "setup_cmd": "/venv/bin/python -c 'import hypothesis' 2>/dev/null || /venv/bin/pip install -q --no-index --find-links /opt/veriftools/wheels hypothesis; cd /verif && /venv/bin/python -m g3dverif.selftest",
+        "setup_cmd": "/venv/bin/python -c 'import hypothesis' 2>/dev/null || /venv/bin/pip install -q --no-index --find-links /opt/veriftools/wheels hypothesis; (PYTHONPATH=/verif/.deps /venv/bin/python -c 'import atheris' 2>/dev/null || /venv/bin/pip install -q --no-index --find-links /opt/veriftools/wheels --target /verif/.deps atheris || true); cd /verif && /venv/bin/python -m g3dverif.selftest",
         "hooks": {
             "guard": "GEOMETRY3D_VERIF",
             "enable": "no source hooks are needed: the library is pure Python and every check imports Geometry3D from /repo's working tree (G3DVERIF_REPO overrides the path) in fresh subprocesses; the guard variable is set to 1 by the harness for completeness",
